@@ -20,7 +20,7 @@ RULE = ("(operator among + - neg * / // % divmod, six comparisons, val(), abs) x
         "non-integer / negative operand (single operations), >= 2 completed fixed-point operations (compositions); distinct by (op, types, values, resolution, bitlength).")
 
 BIN = ["add", "sub", "mul", "truediv", "floordiv", "mod", "divmod", "lt", "le", "gt", "ge", "eq", "ne"]
-UN = ["neg", "abs", "val", "pos"]
+UN = ["neg", "abs", "val", "pos", "copy", "deepcopy"]
 CMP = refsem.CMP
 TYPES = "FIBif"
 
@@ -41,7 +41,7 @@ def ref(name, ts, vals, r):
             return ("num", -x)
         if name == "abs":
             return ("num", abs(x))
-        if name == "pos":
+        if name in ("pos", "copy", "deepcopy"):
             return ("num", x)
         return ("float", float(x))
     a, b = number(ts[0], vals[0], r), number(ts[1], vals[1], r)
@@ -71,7 +71,7 @@ def in_core(name, ts, vals, r, b):
     """conservative no-raise domain (DESIGN.md section 3)"""
     S = 1 << r
     lim = 1 << b
-    if name in ("neg", "pos", "val"):
+    if name in ("neg", "pos", "val", "copy", "deepcopy"):
         return True
     if name == "abs":
         return abs(number(ts[0], vals[0], r) * S) < lim // 2
